@@ -28,7 +28,22 @@ type TCase struct {
 	OptOrder int `json:"optOrder,omitempty"`
 	// Cap > 0: the temporal store is created with WithMaxIntervalsPerAtom(Cap) (0: the default cap).
 	Cap int `json:"cap,omitempty"`
+	// Regular is the kind of the REGULAR fact store handed to EvalProgram beside the temporal one:
+	// "" = the array store (as in replay files written before the field existed), a kind of prog.StoreKinds, or
+	// a factstore.TemporalFactStoreAdapter: "adapter-same" / "adapter-at-same" front the very temporal store
+	// given to WithTemporalStore (NewTemporalFactStoreAdapter / ...AdapterAt the evaluation time),
+	// "adapter-separate" / "adapter-at-separate" front another temporal store that holds SepFacts facts of a
+	// predicate the program does not mention. An adapter is handed to the engine as it is (no wrapper around
+	// it); what is written through it is counted in the temporal store behind it.
+	Regular  string `json:"regular,omitempty"`
+	SepFacts int    `json:"sepFacts,omitempty"`
 }
+
+// regularKinds are the values of TCase.Regular the generator draws from (adapters: 8 of 14).
+var regularKinds = []string{"", "simple", "multiindexed", "concurrent-array", "teeing", "merged",
+	"adapter-same", "adapter-same", "adapter-at-same", "adapter-separate", "adapter-separate", "adapter-separate", "adapter-at-separate", "adapter-at-separate"}
+
+func isAdapter(kind string) bool { return strings.HasPrefix(kind, "adapter-") }
 
 func (c TCase) text() string {
 	var sb strings.Builder
@@ -75,6 +90,17 @@ func (c countingTemporal) Add(a ast.Atom, iv ast.Interval) (bool, error) {
 	return ok, err
 }
 
+func (c countingTemporal) AddEternal(a ast.Atom) (bool, error) {
+	ok, err := c.TemporalFactStore.AddEternal(a)
+	if ok {
+		*c.created++
+		if *c.created > c.bound {
+			panic(overrun{*c.created, c.bound})
+		}
+	}
+	return ok, err
+}
+
 func checkTemporal(run *stats.Run, f stats.Failer, c TCase) verdict {
 	var v verdict
 	text := c.text()
@@ -96,12 +122,55 @@ func checkTemporal(run *stats.Run, f stats.Failer, c TCase) verdict {
 		return v
 	}
 	created := 0
-	plain := countingStore{FactStore: factstore.NewMultiIndexedArrayInMemoryStore(), created: &created, bound: B}
 	tinner := factstore.NewTemporalStore()
 	if c.Cap > 0 {
 		tinner = factstore.NewTemporalStore(factstore.WithMaxIntervalsPerAtom(c.Cap))
 	}
 	temporal := countingTemporal{TemporalFactStore: tinner, created: &created, bound: B}
+	evalTime := time.Date(2024, 6, 1, 0, 0, 0, 0, time.UTC)
+	// the regular store: an in-memory kind behind the counting wrapper, or an adapter over a (counting) temporal store
+	var plain factstore.FactStore
+	var plainInner factstore.FactStore // the store to read back; nil for an adapter
+	switch {
+	case isAdapter(c.Regular):
+		var behind factstore.TemporalFactStore = temporal
+		if strings.HasSuffix(c.Regular, "-separate") {
+			sep := factstore.NewTemporalStore()
+			for i := 0; i < c.SepFacts; i++ {
+				if _, err := sep.AddEternal(ast.NewAtom("hist", ast.Number(int64(i)))); err != nil {
+					run.Failf(f, "harness: the separate temporal store refused a fact: %v", err)
+				}
+			}
+			behind = countingTemporal{TemporalFactStore: sep, created: &created, bound: B}
+		}
+		if strings.HasPrefix(c.Regular, "adapter-at-") {
+			plain = factstore.NewTemporalFactStoreAdapterAt(behind, evalTime)
+		} else {
+			plain = factstore.NewTemporalFactStoreAdapter(behind)
+		}
+	case c.Regular == "":
+		plainInner = factstore.NewMultiIndexedArrayInMemoryStore()
+	default:
+		known := false
+		for _, k := range prog.StoreKinds {
+			known = known || k == c.Regular
+		}
+		if !known {
+			run.Failf(f, "malformed case: unknown regular store kind %q", c.Regular)
+		}
+		plainInner = prog.NewStore(c.Regular)
+	}
+	if plainInner != nil {
+		plain = countingStore{FactStore: plainInner, created: &created, bound: B}
+	}
+	shown := text
+	if c.Regular != "" {
+		shown = fmt.Sprintf("%sregular store: %s", text, c.Regular)
+		if c.SepFacts > 0 {
+			shown += fmt.Sprintf(" holding %d facts", c.SepFacts)
+		}
+		shown += "\n"
+	}
 	var evalErr error
 	var over *overrun
 	panicked := ""
@@ -116,18 +185,18 @@ func checkTemporal(run *stats.Run, f stats.Failer, c TCase) verdict {
 			}
 		}()
 		evalErr = engine.EvalProgram(out.Info, plain, permuteOpts([]engine.EvalOption{engine.WithCreatedFactLimit(L), engine.WithTemporalStore(temporal),
-			engine.WithEvaluationTime(time.Date(2024, 6, 1, 0, 0, 0, 0, time.UTC))}, c.OptOrder)...)
+			engine.WithEvaluationTime(evalTime)}, c.OptOrder)...)
 	}()
 	if panicked != "" {
-		run.Failf(f, "evaluation under a fact limit panicked: %s\nlimit %d\n%s", panicked, L, text)
+		run.Failf(f, "evaluation under a fact limit panicked: %s\nlimit %d\n%s", panicked, L, shown)
 	}
 	if over != nil {
-		run.Failf(f, "limit %d not enforced for temporal facts: %d facts created, more than the bound %d; evaluation aborted by the harness\nprogram:\n%s", L, over.created, B, text)
+		run.Failf(f, "limit %d not enforced for temporal facts: %d facts created, more than the bound %d; evaluation aborted by the harness\nprogram:\n%s", L, over.created, B, shown)
 	}
 	diverges := c.Shape != "t-counter"
 	if evalErr == nil {
 		if diverges {
-			run.Failf(f, "evaluation returned without error under limit %d although the temporal model is infinite (%d facts created): a truncated model was returned silently\nprogram:\n%s", L, created, text)
+			run.Failf(f, "evaluation returned without error under limit %d although the temporal model is infinite (%d facts created): a truncated model was returned silently\nprogram:\n%s", L, created, shown)
 		}
 		// finite counter: exactly tp(1..max(Seeds, Upto)) hold, each with the seed interval, nothing in the plain store
 		want := map[string]bool{}
@@ -156,16 +225,27 @@ func checkTemporal(run *stats.Run, f stats.Failer, c TCase) verdict {
 		}
 		sort.Strings(missing)
 		sort.Strings(extra)
+		// an in-memory regular store holds nothing (every predicate is temporal); what an adapter shows as
+		// regular facts is not judged
 		var po prog.Outcome
-		prog.ReadStore(plain.FactStore, &po)
+		if plainInner != nil {
+			prog.ReadStore(plainInner, &po)
+		}
 		if len(missing) > 0 || len(extra) > 0 || len(po.Facts) > 0 {
-			run.Failf(f, "evaluation returned without error under limit %d but the temporal model is not complete.\nmissing: %v\nextra: %v\nplain (non-temporal) facts: %d\nprogram:\n%s", L, missing, extra, len(po.Facts), text)
+			run.Failf(f, "evaluation returned without error under limit %d but the temporal model is not complete.\nmissing: %v\nextra: %v\nplain (non-temporal) facts: %d\nprogram:\n%s", L, missing, extra, len(po.Facts), shown)
 		}
 		v.labels = append(v.labels, "completed")
 	} else {
 		v.labels = append(v.labels, "stopped-with-error")
 	}
-	v.labels = append(v.labels, "shape:"+c.Shape)
+	regular := c.Regular
+	if regular == "" {
+		regular = "multiindexedarray"
+	}
+	v.labels = append(v.labels, "shape:"+c.Shape, "regular:"+regular)
+	if isAdapter(c.Regular) {
+		v.labels = append(v.labels, "regular-store-is-temporal-adapter")
+	}
 	v.nontrivial = true
 	return v
 }
@@ -184,6 +264,10 @@ func TestC17_Temporal(t *testing.T) {
 		}
 		c.OptOrder = rapid.IntRange(0, 5).Draw(rt, "optOrder")
 		c.Cap = rapid.SampledFrom([]int{0, 0, 2, 5, 20}).Draw(rt, "cap")
+		c.Regular = rapid.SampledFrom(regularKinds).Draw(rt, "regular")
+		if strings.HasSuffix(c.Regular, "-separate") {
+			c.SepFacts = rapid.IntRange(0, 3).Draw(rt, "sepFacts")
+		}
 		run.Current(c)
 		vd := checkTemporal(run, rt, c)
 		run.Case(vd.nontrivial, stats.Hash(fmt.Sprintf("%+v", c)), vd.labels...)
